@@ -42,6 +42,8 @@ static size_t hostile_size(Rng& r) {
     static const size_t S[] = {0, 1, 7, 8, 9, 15, 16, 17, 4095, 4096, 4097, 65536};
     static const size_t H[] = {(size_t)-1 / 2, (size_t)-1 - 7, (size_t)-1 - 8, (size_t)-1 - 6, (size_t)-1 - 1, (size_t)-1, ((size_t)1 << 20) - 8, ((size_t)1 << 20) - 7, (size_t)1 << 20, ((size_t)1 << 31), ((size_t)1 << 32) + 3, (size_t)1 << 63, ((size_t)1 << 32), ((size_t)1 << 32) - 1};
     int k = r.below(20);
+    // just above the simple fractions of SIZE_MAX (a size padded by a quarter, a third, a half ... wraps to something small there)
+    if (r.chance(1, 12)) { static const unsigned D[] = {5, 4, 3, 2, 8, 16, 10}; static const unsigned N[] = {4, 3, 2, 1, 7, 15, 9}; unsigned i = r.below(7); return (size_t)-1 / D[i] * N[i] + r.below(300); }
     if (k < 12) return S[r.below(sizeof S / sizeof S[0])];
     if (k < 17) return r.below(300);
     return H[r.below(sizeof H / sizeof H[0])];
@@ -90,7 +92,16 @@ static void run_case(Ctx& c, uint64_t idx) {
     auto check_all = [&](const char* when) {
         for (auto& kv : live) { long b = first_bad(kv.first, kv.second.size, kv.second.pat); if (b >= 0) { c.violation("C15", "alloc/live-block-content-changed", fmt("%s: block %p(%zu) byte %ld; trace: %s", when, (void*)kv.first, kv.second.size, b, trace.c_str())); kv.second.pat = 0; fill(kv.first, kv.second.size, 0); } }
     };
+    int recompleteAt = (idx % 16 == 9) ? r.range(1, steps) : -1;
     for (int st = 0; st < steps; st++) {
+        if (st == recompleteAt) {
+            // in the middle of its life the manager is offered a backend without malloc (or without free): that is refused with the
+            // dedicated code, and the manager goes on working with the backend it has -- its live blocks stay usable and releasable
+            UriMemoryManager bad = be.mm; if (r.coin()) bad.malloc = nullptr; else bad.free = nullptr;
+            int rcb = uriCompleteMemoryManager(&mm, &bad); c.evaluations++; c.count("refused_recompletions");
+            if (rcb != URI_ERROR_MEMORY_MANAGER_INCOMPLETE) c.violation("C15", "alloc/incomplete-backend-accepted", fmt("re-completion rc=%d", rcb));
+            if (!mm.malloc || !mm.calloc || !mm.realloc || !mm.reallocarray || !mm.free || mm.userData != &be) { c.violation("C15", "alloc/refused-completion-damaged-the-manager", fmt("trace: %s", trace.c_str())); uriCompleteMemoryManager(&mm, &be.mm); }
+        }
         int op = r.below(10); c.stage((uint64_t)st);
         bool haveLive = !live.empty();
         char* victim = nullptr; Block vb{0, 0};
